@@ -247,7 +247,7 @@ Definition dispatch_cmp (hw : bool) (bounds : option (list (option float * optio
   | NotImplemented => if e_notimpl then 0 else 15
   | Call c =>
       if e_notimpl then 15
-      else if negb (Bool.eqb (match c_engine c with CurveFit _ => true | MinimizeSLSQP _ => false end) e_curvefit) then 10
+      else if negb (Bool.eqb (match c_engine c with CurveFit => true | MinimizeSLSQP => false end) e_curvefit) then 10
       else if negb (Bool.eqb (c_sigma c) e_sigma) then 11
       else if negb (match c_box c, e_box with
                     | None, None => true
@@ -257,7 +257,7 @@ Definition dispatch_cmp (hw : bool) (bounds : option (list (option float * optio
                     | None, None => true
                     | Some b, Some b' => list_eqb (fun x y => opt_f_eqb (fst x) (fst y) && opt_f_eqb (snd x) (snd y)) b b'
                     | _, _ => false end) then 13
-      else if negb (Nat.eqb (length (c_constraints c)) e_ncons) then 14
+      else if negb (Nat.eqb (List.length (c_constraints c)) e_ncons) then 14
       else 0
   end.
 """
@@ -281,9 +281,6 @@ def pairs(ps):
 
 def coq_protocol_case(case, obs, with_trees):
     n = len(case["ctbl"])
-    common = "%s %s %s [%s] %s %s" % (
-        vlib.bool_list(obs["may"]), "[" + "; ".join(opt_nat(v) for v in obs["saved"]) + "]",
-        tbl(obs["fc"]), "", "", "")
     args = "%d %s %s" % (n, tbl(obs["conds"]), pairs(case["ops"]))
     may = vlib.bool_list(obs["may"])
     saved = "[" + "; ".join(opt_nat(v) for v in obs["saved"]) + "]"
@@ -339,7 +336,8 @@ def dep_order_oracle(DP, obs, case):
         if not all(k in last for k in need):
             continue
         x, y = last[j]
-        A = basis_for(len(conds[j]), [deps[c] for c in conds[j]], x)
+        dp = deps[j].dependent_parameters
+        A = basis_for(len(conds[j]), [dp[nm] for nm in ("g", "h") if nm in dp], x)
         if not np.all(np.isfinite(A)) or np.linalg.matrix_rank(A) < 2 or np.linalg.cond(A) > 1e6:
             out.append(("unjudgeable", j, "design"))
             continue
@@ -538,12 +536,18 @@ def single_oracle(DP, F, virocon, c, want_calls=False):
     s_start = ssr(f, x, y, p0, sigma)
     if not math.isfinite(s_opt):
         return ("unjudgeable", None, "non-finite residual", calls)
-    if math.isfinite(s_start) and s_opt > s_start * (1 + 1e-9) + 1e-300:
+    if math.isfinite(s_start) and s_opt > s_start * (1 + (1e-9 if path == "curve_fit" else 1e-6)) + 1e-300:
         return ("fail", {"clause": "not-worse-than-start", "site": site},
                 "%s: residual %.8g after fitting > %.8g at the start parameters" % (R["name"], s_opt, s_start), calls)
     # --- nearby admissible perturbations (optimiser tolerance: curve_fit ftol/xtol 1e-8; SLSQP ftol 1e-6 absolute)
     judge_pert = path == "curve_fit" or R["linear"]
     rel_tol, abs_tol = (1e-6, 1e-12) if path == "curve_fit" else (1e-3, 2e-6)
+    if path == "curve_fit" and R["bounds"] is not None:
+        # trust-region-reflective keeps strictly inside the box and stops by xtol next to an ACTIVE bound
+        for (lo, hi), v in zip(R["bounds"], p):
+            for bnd in (lo, hi):
+                if bnd is not None and abs(v - bnd) <= 1e-3 * max(1.0, abs(bnd)):
+                    rel_tol, abs_tol = 1e-3, 1e-9
     pr = np.random.default_rng([c["seed"], 142])
     worst = None
     if judge_pert:
@@ -575,7 +579,10 @@ def single_oracle(DP, F, virocon, c, want_calls=False):
         strictly_inside = okr and in_bounds(ref * (1 + 1e-6), R["bounds"], 0.0)[0] and in_bounds(ref * (1 - 1e-6), R["bounds"], 0.0)[0]
         if strictly_inside and np.linalg.cond(A * w[:, None]) < 1e6 and len(x) >= R["npar"]:
             d = float(np.max(np.abs(p - ref) / np.maximum(1e-3, np.abs(ref))))
-            if d > 1e-5:
+            s_ref = ssr(f, x, y, ref, sigma)
+            # uniqueness is judged through the residual (the parameter error of a converged optimiser scales with
+            # the conditioning of the design); a gross parameter difference is flagged as well
+            if s_opt > s_ref * (1 + 1e-6) + 1e-9 * float(np.sum(y * y)) or d > 1e-3:
                 return ("fail", {"clause": "linear-lsq", "site": site},
                         "%s: fitted %r differs from the linear least-squares solution %r (rel %.3g)" % (R["name"], [float(t) for t in p], [float(t) for t in ref], d), calls)
     return ("ok" if judge_pert else "ok-no-perturbation-judgement", None, "", calls)
@@ -595,9 +602,10 @@ def bounds_term(b):
 def coq_dispatch_case(R, calls, exc):
     hw = R["weights"] is not None
     ncons = None if R["cons"] is None else len(cons_list(R["cons"]))
-    head = "dispatch_cmp %s %s %s" % ("true" if hw else "false", bounds_term(R["bounds"]), opt_nat(ncons))
+    head = "dispatch_cmp %s %s %s" % ("true" if hw else "false", bounds_term(R["bounds"]),
+                                     "None" if ncons is None else "(Some %d%%nat)" % ncons)
     if exc == "NotImplementedError" or not calls:
-        return "(%s true true false None None 0)" % head
+        return "(%s true true false None None 0%%nat)" % head
     c = calls[0]
     kw = c["kw"]
     if c["engine"] == "curve_fit":
@@ -605,11 +613,11 @@ def coq_dispatch_case(R, calls, exc):
         if "bounds" in kw:
             lo, hi = kw["bounds"]
             box = "(Some (%s, %s))" % (vlib.fl_list([float(v) for v in lo]), vlib.fl_list([float(v) for v in hi]))
-        return "(%s false true %s %s None 0)" % (head, "true" if kw.get("sigma") is not None else "false", box)
+        return "(%s false true %s %s None 0%%nat)" % (head, "true" if kw.get("sigma") is not None else "false", box)
     raw = bounds_term(kw.get("bounds"))
     k = kw.get("constraints", ())
     k = 1 if isinstance(k, dict) else len(list(k))
-    return "(%s false false false None %s %d)" % (head, raw, k)
+    return "(%s false false false None %s %d%%nat)" % (head, raw, k)
 
 
 # ---------------------------------------------------------------------- ConditionalDistribution.fit loop
@@ -628,7 +636,8 @@ def run_cond_dist(virocon, DP, F, c, mode="tag"):
     deps = build(DP, c["ctbl"])
     by_name = {nm: deps[i] for i, nm in enumerate(c["perm"])}
     params = {nm: by_name[nm] for nm in c["decl"]}
-    cd = virocon.ConditionalDistribution(virocon.WeibullDistribution(), params)
+    from virocon.distributions import ConditionalDistribution
+    cd = ConditionalDistribution(virocon.WeibullDistribution(), params)
     idx = {id(f): j for j, f in enumerate(deps)}
     r = np.random.default_rng([c["seed"], 143])
     ys_rounds = []
@@ -639,7 +648,7 @@ def run_cond_dist(virocon, DP, F, c, mode="tag"):
             data = [virocon.WeibullDistribution(alpha=1 + i + rd, beta=1.5 + 0.2 * i, gamma=0.1).draw_sample(25, random_state=int(r.integers(1 << 30)))
                     for i in range(nint)]
             cv = [0.5 + i for i in range(nint)]
-            cd.fit(data, cv, [(v - 0.5, v + 0.5) for v in cv])
+            cd.fit(data, cv, [(v - 0.5, v + 0.5) for v in cv], "mle")
             ys_rounds.append({nm: [float(p[nm]) for p in cd.parameters_per_interval] for nm in cd.param_names})
     # data tags by content of y
     def tag_of(y):
@@ -735,8 +744,8 @@ def run(ctx):
     items, meta = [], []
 
     # ---------------- (a)+(b) protocol correspondence
-    n_tag = ctx.n(220, 3000)
-    n_real = ctx.n(60, 600)
+    n_tag = ctx.n(600, 6000)
+    n_real = ctx.n(150, 1500)
     cases = []
     for i in range(n_tag + n_real):
         ctbl = gen_dag(rng, 4 if ctx.quick() else 5)
@@ -779,7 +788,7 @@ def run(ctx):
         ctx.sample({"conds": c["ctbl"], "ops": c["ops"], "mode": c["mode"]})
 
     # ---------------- (c) ConditionalDistribution.fit loop
-    n_cd = ctx.n(24, 200)
+    n_cd = ctx.n(60, 400)
     cd_lines, cd_cases = [], []
     for k in range(n_cd):
         c = cond_dist_case(rng, k)
@@ -796,7 +805,7 @@ def run(ctx):
                           "ConditionalDistribution.fit changed the template's own parameters", {"kind": "conddist", "case": c})
 
     # ---------------- (d) single functions: dispatch correspondence + property oracle
-    n_single = ctx.n(260, 4000)
+    n_single = ctx.n(700, 8000)
     singles = [gen_single(rng, virocon, k) for k in range(n_single)]
     disp_lines, disp_cases = [], []
     single_fail = []
@@ -822,7 +831,8 @@ def run(ctx):
     def shard(name, ls):
         out = []
         for s in range(0, len(ls), 300):
-            body = PRELUDE + "Definition results : list nat := [\n" + ";\n".join(ls[s:s + 300]) + "]%nat.\nEval vm_compute in results.\n"
+            scope = "Local Open Scope float_scope.\n" if name == "dispatch" else "Local Open Scope nat_scope.\n"
+            body = PRELUDE + scope + "Definition results : list nat := [\n" + ";\n".join(ls[s:s + 300]) + "].\nEval vm_compute in results.\n"
             out.append((name + "_%d" % (s // 300), body))
         return out
     groups = [("protocol", lines, which), ("conddist", cd_lines, cd_cases), ("dispatch", disp_lines, disp_cases)]
